@@ -99,6 +99,10 @@ func (h *inFlightRequestsHandler) onOutgoingFrameEnqueued(f *frame.Frame) (InFli
 			return inFlight, nil
 		}
 	}
+	if managedStreamId {
+		// the request was refused: give the borrowed stream id back
+		_ = h.releaseStreamId(streamId)
+	}
 	return nil, err
 }
 
